@@ -228,7 +228,7 @@ fn setup_program(prog: &Value, path: &str) -> (Arc<Shared>, Vec<Vec<Value>>) {
     for op in prog["init"].as_array().unwrap_or(&Vec::new()) {
         let vals = Mutex::new(ValTable::new());
         let (r, _) = exec(&store, &keys, op, &vals);
-        if r["tag"].as_str().map_or(true, |t| !["bool", "unit", "num"].contains(&t)) {
+        if r["tag"].as_str().map_or(true, |t| !["bool", "unit", "num", "OutOfMemory"].contains(&t)) {
             panic!("init op failed: {r}");
         }
     }
@@ -239,7 +239,7 @@ fn setup_program(prog: &Value, path: &str) -> (Arc<Shared>, Vec<Vec<Value>>) {
 }
 
 /// One controlled schedule; returns (history events, choices per decision point, stalled).
-fn run_schedule(prog: &Value, schedule: &[usize], path: &str) -> (Vec<Value>, Vec<Vec<usize>>, bool) {
+fn run_schedule(prog: &Value, schedule: &[usize], path: &str, pinout: Option<&str>) -> (Vec<Value>, Vec<Vec<usize>>, bool) {
     feoxdb::verif::set_now(NOW);
     let (sh, threads) = setup_program(prog, path);
     let nthreads = threads.len();
@@ -262,27 +262,54 @@ fn run_schedule(prog: &Value, schedule: &[usize], path: &str) -> (Vec<Value>, Ve
     let mut pos = 0;
     let mut stalled = false;
     let mut prev: Option<usize> = None;
+    let mut spins = vec![0usize; nthreads];
+    let mut streak = 0usize;
+    let mut blocked = vec![false; nthreads];
+    let mut all_blocked_rounds = 0usize;
+    let mut last_point: Vec<&'static str> = vec![""; nthreads];
     while alive.iter().any(|a| *a) {
-        let runnable: Vec<usize> = (0..nthreads).filter(|i| alive[*i]).collect();
+        let mut runnable: Vec<usize> = (0..nthreads).filter(|i| alive[*i] && !blocked[*i]).collect();
+        if runnable.is_empty() {
+            // every live thread waits for something a parked thread holds: give them one long chance
+            for b in blocked.iter_mut() { *b = false; }
+            runnable = (0..nthreads).filter(|i| alive[*i]).collect();
+            all_blocked_rounds += 1;
+            if all_blocked_rounds > 2 { stalled = true; break; }
+        }
         // default policy: keep running the same thread (no preemption), else the lowest alive
-        let default = match prev { Some(p) if alive[p] => p, _ => runnable[0] };
+        let mut default = match prev { Some(p) if alive[p] && !blocked[p] => p, _ => runnable[0] };
+        // fairness: a thread spinning through the same point (a wait loop) yields to the others
+        if (spins[default] >= 3 || streak >= 40) && runnable.len() > 1 {
+            default = *runnable.iter().find(|r| **r != default).unwrap();
+        }
         let pick = if pos < schedule.len() && runnable.contains(&schedule[pos]) { schedule[pos] } else { default };
         let mut opts = vec![pick];
         opts.extend(runnable.iter().copied().filter(|r| *r != pick));
         choices.push(opts);
         pos += 1;
+        if prev == Some(pick) { streak += 1; } else { streak = 0; }
         prev = Some(pick);
-        match feoxdb::verif::sched::step(ids[pick], Duration::from_secs(10)) {
-            None => alive[pick] = false,
-            Some("<stall>") => { stalled = true; break; }
-            Some(_) => {}
+        match feoxdb::verif::sched::step(ids[pick], Duration::from_millis(if all_blocked_rounds > 0 { 4000 } else { 700 })) {
+            None => { alive[pick] = false; for b in blocked.iter_mut() { *b = false; } }
+            // the thread is blocked on a lock or channel that a parked thread owns: run the others
+            Some("<stall>") => { blocked[pick] = true; }
+            Some(name) => {
+                for b in blocked.iter_mut() { *b = false; }
+                if last_point[pick] == name { spins[pick] += 1; } else { spins[pick] = 0; last_point[pick] = name; }
+            }
         }
-        obs::api("mem", &[], sh.store.memory_usage() as u64, 0, 0);
+        if pos > 5000 { stalled = true; break; }
+        if pos < 400 { obs::api("mem", &[], sh.store.memory_usage() as u64, 0, 0); }
     }
     feoxdb::verif::sched::disable();
     if stalled {
-        // a thread never reached its next point: report, do not join
+        // the controller gave up on this schedule: let the threads run free to completion so that
+        // nothing of this run leaks into the next one, then discard its events
+        for h in handles {
+            let _ = h.join();
+        }
         obs::uninstall();
+        let _ = obs::take();
         return (vec![reset, json!({"e": "stall", "schedule": schedule})], choices, true);
     }
     for h in handles {
@@ -293,6 +320,14 @@ fn run_schedule(prog: &Value, schedule: &[usize], path: &str) -> (Vec<Value>, Ve
     let mut ev = vec![reset];
     ev.extend(history(&raw, &sh, &sh.keys));
     ev.push(final_event(&sh.store, &sh.keys));
+    if let Some(pp) = pinout {
+        write_pin_events(&raw, pp);
+    }
+    if prog["cfg"]["pers"].as_bool().unwrap_or(false) {
+        // dropping a persistent store costs 0.5 s; leak it (the process is short lived)
+        let _ = sh.store.flush();
+        if let Ok(s) = Arc::try_unwrap(sh) { std::mem::forget(s.store); }
+    }
     (ev, choices, false)
 }
 
@@ -322,7 +357,7 @@ fn dfs_main(o: &Opts) -> i32 {
         while let Some(prefix) = stack.pop() {
             if n >= max_sched { truncated += 1; break; }
             crate::util::watchdog::beat(&format!("program {pi} schedule {prefix:?}"));
-            let (ev, choices, stalled) = run_schedule(prog, &prefix, &path);
+            let (ev, choices, stalled) = run_schedule(prog, &prefix, &path, o.get("pinout"));
             if stalled { stalls += 1; }
             // choices[d][0] is the pick actually taken at decision d, the rest are alternatives
             for d in prefix.len()..choices.len() {
@@ -450,19 +485,7 @@ fn free_main(o: &Opts) -> i32 {
         // pin / device events for the no-overwrite-while-pinned check
         if pers {
             if let Some(pp) = o.get("pinout") {
-                let mut f = std::fs::OpenOptions::new().create(true).append(true).open(pp).expect("pinout");
-                writeln!(f, "{}", json!({"e": "reset"})).unwrap();
-                for e in &raw {
-                    match e.kind {
-                        "pin" => writeln!(f, "{}", json!({"e": "pin", "id": e.a % 1_000_000_007, "tid": e.tid})).unwrap(),
-                        "unpin" => writeln!(f, "{}", json!({"e": "unpin", "id": e.a % 1_000_000_007, "tid": e.tid})).unwrap(),
-                        "pread" => writeln!(f, "{}", json!({"e": "pread", "tid": e.tid, "s": e.a, "n": e.b})).unwrap(),
-                        "wb" => writeln!(f, "{}", json!({"e": "wb", "tid": e.tid, "s": e.a, "n": e.b})).unwrap(),
-                        "w" if e.a >= 16 => writeln!(f, "{}", json!({"e": if e.b == 1 { "wsub" } else { "we" }, "tid": e.tid, "s": e.a, "n": e.data.len() / 4096})).unwrap(),
-                        "wd" => writeln!(f, "{}", json!({"e": "wdone", "tid": e.tid})).unwrap(),
-                        _ => {}
-                    }
-                }
+                write_pin_events(&raw, pp);
             }
         }
         match Arc::try_unwrap(sh) {
@@ -474,4 +497,20 @@ fn free_main(o: &Opts) -> i32 {
     let _ = std::fs::remove_file(&path);
     println!("{}", json!({"rounds": rounds, "events": events}));
     0
+}
+
+fn write_pin_events(raw: &[RawEv], path: &str) {
+    let mut f = std::fs::OpenOptions::new().create(true).append(true).open(path).expect("pinout");
+    writeln!(f, "{}", json!({"e": "reset"})).unwrap();
+    for e in raw {
+        match e.kind {
+            "pin" => writeln!(f, "{}", json!({"e": "pin", "id": e.a % 1_000_000_007, "tid": e.tid})).unwrap(),
+            "unpin" => writeln!(f, "{}", json!({"e": "unpin", "id": e.a % 1_000_000_007, "tid": e.tid})).unwrap(),
+            "pread" => writeln!(f, "{}", json!({"e": "pread", "tid": e.tid, "s": e.a, "n": e.b})).unwrap(),
+            "wb" if e.a >= 16 => writeln!(f, "{}", json!({"e": "wb", "tid": e.tid, "s": e.a, "n": e.b})).unwrap(),
+            "w" if e.a >= 16 => writeln!(f, "{}", json!({"e": if e.b == 1 { "wsub" } else { "we" }, "tid": e.tid, "s": e.a, "n": e.data.len() / 4096})).unwrap(),
+            "wd" => writeln!(f, "{}", json!({"e": "wdone", "tid": e.tid})).unwrap(),
+            _ => {}
+        }
+    }
 }
